@@ -347,7 +347,8 @@ def group_errors_silenced(an: Analysis, ob) -> None:
                 if any(exc_is_sub(exc_class, c) for prev, _ in aw.succ if prev.kind == "handler" and prev is not t and aw.succ.index((prev, "exc")) < aw.succ.index((t, "exc")) for c in g.handler_classes(prev.ast)):  # type: ignore[arg-type]
                     continue  # an earlier handler takes it
                 for kind, node, path in classify_handler_for(g, t.ast, exc_class):  # type: ignore[arg-type]
-                    if kind != "swallow":
+                    falsy_return = kind == "return" and node is not None and isinstance(node.ast, ast.Return) and (node.ast.value is None or (isinstance(node.ast.value, ast.Constant) and not node.ast.value.value))
+                    if kind != "swallow" and not falsy_return:  # `return` / `return None` / `return False` from __aexit__ silences just the same
                         ob.fail(f, t.ast, f"a {exc_class} raised by the task group exit is not silenced (the handler {kind}s): it replaces the body's own exception", CFG.show_path(path))
 
 
